@@ -25,6 +25,7 @@ from ...noconn import NoConn
 from ...slice import Slice
 from ...concat import Concat
 from ..helpers.resolve_ref_types import update_ref_deps
+from ..helpers.used_refs import used_refs
 
 # Import the base class
 from .base import ElabPass
@@ -76,10 +77,13 @@ class ResolvePortRefs(ElabPass):
         # Collect up all `PortRef`s for all instances in the module
         # FIXME: move from SetList to a regular Set. Thus far breaks one test, somehow.
         module_portrefs = SetList()
+        # Instances remember a reference for every attribute ever asked of them. Those which no connection uses
+        # (any more) - `hasattr` probes, misspelt or replaced ones - are not part of the design.
+        used = used_refs(module)
         for inst in instancelike:
             # Populate the module-level set of PortRefs
             for portref in inst._refs.portrefs.values():
-                if self.is_dead_end(portref):
+                if id(portref) not in used:
                     continue
                 module_portrefs.add(portref)
 
@@ -254,16 +258,6 @@ class ResolvePortRefs(ElabPass):
             return BundleInstance(of=port.of, port=False, role=None)
 
         self.fail(f"Invalid Port Type `{port}`")
-
-    def is_dead_end(self, portref: PortRef) -> bool:
-        """Boolean indication of whether `portref` is a reference nothing uses (any more) to a port that does not exist.
-        Instances hand out - and remember - a reference for every attribute asked of them, including misspelt ones
-        which were since replaced, and those of `hasattr` probes. Such references are not part of the design."""
-        if connected_ports(portref):
-            return False
-        if getattr(portref, "_slices", None) or getattr(portref, "_concats", None):
-            return False
-        return portref.portname not in io_for_resolving(portref.inst.of)
 
     def handle_noconn(self, module: Module, group: List[Connectable]):
         """Handle a group with a `NoConn`."""
